@@ -4,8 +4,10 @@ import (
 	"bytes"
 	"fmt"
 	"go/ast"
+	"go/constant"
 	"go/printer"
 	"go/token"
+	"regexp"
 	"sort"
 	"strings"
 )
@@ -36,8 +38,11 @@ func render(n ast.Node) string {
 }
 
 // normOperand renames the query-/pattern-side variables of the comparators to q / p and the loop index to i.
+var typeAssertRe = regexp.MustCompile(`\.\(\*?[A-Za-z]+\)`)
+
 func normOperand(s string) string {
 	s = strings.ReplaceAll(s, "sqlparser.", "")
+	s = typeAssertRe.ReplaceAllString(s, "")
 	var out []string
 	for _, part := range strings.Split(s, ".") {
 		base := part
@@ -135,6 +140,14 @@ func stepsOf(list []ast.Stmt, loop string) (steps []cmpStep, final string, ok bo
 				return nil, "", false
 			}
 			cond := s.Cond
+			if render(cond) == "query == nil && pattern == nil" && blockIsReturn(s.Body, "true") {
+				steps = append(steps, cmpStep{kindOf("nilboth"), "", "q", "p"})
+				continue
+			}
+			if render(cond) == "query == nil || pattern == nil" && blockIsReturn(s.Body, "false") {
+				steps = append(steps, cmpStep{kindOf("nileither"), "", "q", "p"})
+				continue
+			}
 			// if reflect.DeepEqual(pattern, X) { return true }
 			if name, args, isCall := callName(cond); isCall && name == "reflect.DeepEqual" && len(args) == 2 && blockIsReturn(s.Body, "true") {
 				steps = append(steps, cmpStep{kindOf("shortcut"), name, normOperand(render(args[0])), normOperand(render(args[1]))})
@@ -321,6 +334,41 @@ func genCensorTable() {
 			mlRel+": (function, value of the final return, steps (kind, callee, query operand, pattern operand)); kinds: cast, shortcut, cmp (`if !f(q,p) {return false}`), cmpNeg (`if f(q,p) {return false}`), cmpEsc:<escape>:<arg>, len, ne, range, each:<kind> (inside the preceding range)")
 		lf.def("irregular", "List String", strList(irregular), mlRel+": handle*/areEqual* functions whose body is not a plain field-by-field comparison (type switches, placeholder logic)")
 
+		// plain type switches of the irregular functions
+		var tsRows []string
+		for _, d := range f.Decls {
+			fd, ok := d.(*ast.FuncDecl)
+			if !ok || fd.Recv != nil || !strings.HasPrefix(fd.Name.Name, "areEqual") {
+				continue
+			}
+			var sw *ast.TypeSwitchStmt
+			for _, st := range fd.Body.List {
+				if t, ok := st.(*ast.TypeSwitchStmt); ok && render(t.Assign) == "pattern.(type)" {
+					sw = t
+				}
+			}
+			if sw == nil {
+				continue
+			}
+			var cases []string
+			for _, c := range sw.Body.List {
+				cc := c.(*ast.CaseClause)
+				if cc.List == nil {
+					continue
+				}
+				typ := strings.TrimPrefix(strings.TrimPrefix(render(cc.List[0]), "*"), "sqlparser.")
+				steps, fin, ok := stepsOf(cc.Body, "")
+				if ok && fin == "" && len(steps) == 2 && steps[0].kind == "cast" && steps[0].callee == typ && steps[0].q == "q" && steps[1].kind == "cmp" {
+					cases = append(cases, fmt.Sprintf("(%q, %q, %q, %q)", typ, steps[1].callee, steps[1].q, steps[1].p))
+				} else {
+					cases = append(cases, fmt.Sprintf("(%q, %q, %q, %q)", typ, "special", "", ""))
+				}
+			}
+			tsRows = append(tsRows, fmt.Sprintf("(%q, [%s])", fd.Name.Name, strings.Join(cases, ", ")))
+		}
+		lf.def("typeSwitches", "List (String × List (String × String × String × String))", "[\n  "+strings.Join(tsRows, ",\n  ")+"]",
+			mlRel+": functions that switch on the pattern's type: per case (type, callee, query operand, pattern operand) when the case is `q, ok := query.(T); if !ok {return false}; if !callee(q…, pattern.(T)…) {return false}`, callee = special otherwise")
+
 		// dispatch of checkSinglePatternMatch
 		if fd := funcDecl(mlRel, "", "checkSinglePatternMatch"); fd != nil {
 			var disp []string
@@ -345,6 +393,22 @@ func genCensorTable() {
 			last := fd.Body.List[len(fd.Body.List)-1]
 			lf.def("patternDispatchDefault", "Bool", boolStr(isReturnBool(last, "true")), "checkSinglePatternMatch: value returned for a pattern of any other type")
 		}
+	}
+
+	// ---- placeholder constants ----
+	const cmRel = "acra-censor/common/common.go"
+	if parseFile(cmRel) != nil {
+		env := newConstEnv(cmRel)
+		var rows []string
+		for _, n := range []string{"ValueReplacer", "ListOfValuesReplacer", "ColumnReplacer", "SubqueryReplacer", "WhereReplacer", "SelectReplacer", "UnionReplacer", "InsertReplacer", "UpdateReplacer", "DeleteReplacer"} {
+			v, ok := env.vals[n]
+			if !ok || v.Kind() != constant.String {
+				fail("%s: constant %s not found", cmRel, n)
+				continue
+			}
+			rows = append(rows, fmt.Sprintf("(%q, %q)", n, constant.StringVal(v)))
+		}
+		lf.def("replacers", "List (String × String)", "["+strings.Join(rows, ", ")+"]", cmRel+": the texts the placeholders are replaced with before a pattern is parsed")
 	}
 
 	// ---- HandleQuery ----
